@@ -44,6 +44,8 @@
 #include <set>
 #include <memory>
 #include <algorithm>
+#include <climits>
+#include <limits>
 
 typedef int64_t i64;
 // view of hv::out whose tag() records each marker once per op line
@@ -91,6 +93,7 @@ static std::vector<std::string> split(const std::string &s, char c)
     }
     return v;
 }
+static long parse_wide(const std::string &x);
 static std::vector<rule> parse_rules(const std::string &s)
 {
     std::vector<rule> rs;
@@ -194,6 +197,7 @@ struct iface
     virtual i64 virt(i64 raw, i64 cur) = 0;       // the unbounded tick value nearest to cur that the code's value stands for
     virtual i64 raw_time(i64 v) = 0;              // an unbounded tick value as the code's time_t prints
     virtual i64 raw_diff(i64 v) = 0;              // an unbounded difference as the code's difftime_t prints
+    virtual i64 diff_max() = 0;                   // numeric_limits<difftime_t>::max(): "no deadline" of minimal_interval()
 };
 
 template <class Spec> struct impl : iface
@@ -205,6 +209,10 @@ template <class Spec> struct impl : iface
     mgr_t *mgr = nullptr;
     std::vector<tim_t *> tim;
     int unarmed = -1;
+    unsigned long off = 0; // added (modulo 2^w) to every tick value handed to the code: moves the history next to the wrap
+    using UT = typename std::make_unsigned<T>::type;
+    using ST_ = typename std::make_signed<T>::type;
+    T tt(i64 v) const { return (T)(UT)((unsigned long)v + off); }
     tim_t *make(int i)
     {
         if (i == unarmed) return new tim_t(igris::delegate<void, int>(), (int)i);
@@ -215,7 +223,7 @@ template <class Spec> struct impl : iface
         default: return new tim_t(igris::make_delegate(ext_fire, (void *)&FIRER), (int)i);
         }
     }
-    impl(int n, int unarmed_) : unarmed(unarmed_)
+    impl(int n, int unarmed_, unsigned long off_ = 0) : unarmed(unarmed_), off(off_)
     {
         mgr = new mgr_t;
         for (int i = 0; i < n; i++) tim.push_back(make(i));
@@ -226,16 +234,16 @@ template <class Spec> struct impl : iface
         delete mgr;
     }
     size_t n() const override { return tim.size(); }
-    void plan(int i, i64 s, i64 iv) override { mgr->plan(*tim[i], (T)s, (D)iv); }
-    void set_start(int i, i64 v) override { tim[i]->set_start((T)v); }
+    void plan(int i, i64 s, i64 iv) override { mgr->plan(*tim[i], tt(s), (D)iv); }
+    void set_start(int i, i64 v) override { tim[i]->set_start(tt(v)); }
     void set_interval(int i, i64 v) override { tim[i]->set_interval((D)v); }
     void plan1(int i) override { mgr->plan(*tim[i]); }
     void unplan(int i) override { tim[i]->unplan(); }
-    void exec(i64 now) override { mgr->exec((T)now); }
+    void exec(i64 now) override { mgr->exec(tt(now)); }
     bool is_planned(int i) override { return tim[i]->is_planned(); }
     i64 finish(int i) override { return (i64)tim[i]->finish(); }
     bool empty() override { return mgr->empty(); }
-    i64 minimal_interval(i64 cur) override { return (i64)mgr->minimal_interval((T)cur); }
+    i64 minimal_interval(i64 cur) override { return (i64)mgr->minimal_interval(tt(cur)); }
     void renew(int i) override
     {
         delete tim[i];
@@ -248,13 +256,18 @@ template <class Spec> struct impl : iface
     }
     i64 virt(i64 raw, i64 cur) override
     {
-        if (sizeof(T) == 8) return raw;
-        return cur + (i64)(int32_t)((uint32_t)raw - (uint32_t)cur);
+        if (sizeof(T) == 8 && off == 0) return raw;
+        return cur + (i64)(ST_)(UT)((UT)raw - (UT)tt(cur));
     }
-    i64 raw_time(i64 v) override { return (i64)(T)v; }
+    i64 raw_time(i64 v) override { return (i64)tt(v); }
     i64 raw_diff(i64 v) override { return (i64)(D)v; }
+    i64 diff_max() override { return (i64)std::numeric_limits<D>::max(); }
 };
 typedef igris::timer_spec<uint32_t> spec_u32;
+typedef igris::timer_spec<int32_t> spec_i32;
+typedef igris::timer_spec<int64_t> spec_i64;
+typedef igris::timer_spec<uint32_t, int32_t> spec_u32s; // unsigned ticks with an explicitly SIGNED difference type
+static_assert(std::is_same<spec_i32::difftime_t, int32_t>::value, "difftime_t of the int32_t instance is int32_t");
 static_assert(std::is_same<spec_u32::difftime_t, uint32_t>::value, "difftime_t of the unsigned instance is uint32_t");
 static_assert(std::is_same<igris::timer_manager, igris::timer_manager_basic<igris::timer_spec<int64_t>>>::value, "");
 
@@ -332,6 +345,7 @@ static void on_fire(int id)
     iface &t = *w.t;
     ectx &c = w.stack.back();
     int myk = w.k++;
+    if (w.stack.size() > 1) ofail("a callback ran inside an exec() called from a callback (a re-entrant exec must return at once)");
     i64 raw = t.finish(id);
     i64 d = t.virt(raw, c.now);
     ref_unarmed(d, false);
@@ -375,9 +389,10 @@ static void on_fire(int id)
                 ectx n;
                 n.now = a.s;
                 w.stack.push_back(n);
-                w.nested_seen = true;
-                w.maxnow = std::max(w.maxnow, a.s);
+                // (fix-C16: exec() called from a callback returns at once - the running exec picks up what is due;
+                // the reference scheduler does nothing here, any callback made inside is reported by on_fire)
                 o.tag("cb-nested-exec");
+                if (w.ref.pending(id) && w.ref.pend[id].first <= a.s) o.tag("cb-nested-exec-own-timer-still-due");
                 t.exec(a.s);
                 w.stack.pop_back();
                 w.stack.back().cur_id = id;
@@ -496,7 +511,14 @@ static std::string summary(out &o)
     if (e != w.ref.empty()) ofail("empty() differs from the reference");
     if (e == any) ofail("empty() inconsistent with is_planned()");
     s += std::string(" e=") + (e ? "1" : "0") + " m=";
-    if (e) s += "-"; // minimal_interval() on an empty manager is outside the property (reads the list head as a timer)
+    if (e)
+    {
+        // no next deadline: minimal_interval() says "never" = the largest difftime_t (fix-C16; it used to read the list
+        // head as if it were a timer).  Printed as "-" as before.
+        s += "-";
+        i64 m = t.minimal_interval(w.cur);
+        if (m != t.diff_max()) o.fail("minimal_interval() on an empty manager is not numeric_limits<difftime_t>::max()");
+    }
     else
     {
         i64 m = t.minimal_interval(w.cur);
@@ -532,7 +554,266 @@ static __int128 parse_big(const std::string &x)
     return neg ? -v : v;
 }
 static bool ST_WIDE = false;
+static bool ST_LONG = false; // reset T: the op lines carry `long` values; oracle = the rule of stimer.c on 128-bit integers
 static __int128 ST_VSTART = 0, ST_VIV = 0; // the unbounded values the stimer fields stand for (reset S)
+
+
+// ---------------------------------------------------------------------------
+// round 3: igris::delegate<void, int> on its own (reset D) - the delegate invoked is the one stored, with its
+// argument, exactly once.  Targets: plain functions F1..F3, member functions (two non-virtual, one virtual) of
+// objects O1..O3, external functions X1..X3 with an object pointer (possibly null), functor objects L1..L2.
+//   dnew <slot> 0 | f <k> | m <obj> <k> | x <k> <obj> | l <k>      construct (default / function / method / extfunction / functor)
+//   dcopy <a> <b>  (copy constructor + operator=)   dmove <a> <b>  (move assignment)   dclean <a>
+//   dinv <a> <arg>    invoke      dreset <a> <arg>   invoke_and_reset      deq <a> <b>   operator==
+//   dtim <a> <arg> <n>   the delegate inside a timer<int>(dlg, arg) planned at (0,1): exec(n) -> n callbacks
+// result: "a=<armed> c=<call records>"; a call record is F<k>(<arg>) | M<obj>.<k>(<arg>) | X<k>[<obj>](<arg>) | L<k>(<arg>)
+// oracle: a shadow description of every slot kept by the harness (never derived from the delegate's own fields)
+// ---------------------------------------------------------------------------
+static std::string DCALLS;
+static void dfn1(int a) { DCALLS += "F1(" + std::to_string(a) + ")"; }
+static void dfn2(int a) { DCALLS += "F2(" + std::to_string(a) + ")"; }
+static void dfn3(int a) { DCALLS += "F3(" + std::to_string(a) + ")"; }
+struct dbase { virtual ~dbase() {} int pad = 7; };
+struct dobj : dbase
+{
+    int id = 0;
+    int magic = 0x600d;
+    void m1(int a) { if (magic != 0x600d) abort(); DCALLS += "M" + std::to_string(id) + ".1(" + std::to_string(a) + ")"; }
+    void m2(int a) { if (magic != 0x600d) abort(); DCALLS += "M" + std::to_string(id) + ".2(" + std::to_string(a) + ")"; }
+    virtual void m3(int a) { if (magic != 0x600d) abort(); DCALLS += "M" + std::to_string(id) + ".3(" + std::to_string(a) + ")"; }
+};
+static dobj DOBJ[4];
+static void dext(int k, void *o, int a)
+{
+    int oid = 0;
+    for (int i = 1; i <= 3; i++) if (o == (void *)&DOBJ[i]) oid = i;
+    if (o != nullptr && oid == 0) abort();
+    DCALLS += "X" + std::to_string(k) + "[" + std::to_string(oid) + "](" + std::to_string(a) + ")";
+}
+static void dx1(void *o, int a) { dext(1, o, a); }
+static void dx2(void *o, int a) { dext(2, o, a); }
+static void dx3(void *o, int a) { dext(3, o, a); }
+struct dfun1 { int magic = 0xf1; void operator()(int a) { if (magic != 0xf1) abort(); DCALLS += "L1(" + std::to_string(a) + ")"; } };
+struct dfun2 { int magic = 0xf2; void operator()(int a) { if (magic != 0xf2) abort(); DCALLS += "L2(" + std::to_string(a) + ")"; } };
+static dfun1 DF1;
+static dfun2 DF2;
+typedef igris::delegate<void, int> dlg_t;
+static const int DSLOTS = 4;
+static dlg_t *DSL[DSLOTS];
+struct dshadow { char kind = '0'; int k = 0, obj = 0; };
+static dshadow DSH[DSLOTS];
+static bool D_MODE = false;
+static std::string dexpect(const dshadow &h, int a)
+{
+    std::string A = "(" + std::to_string(a) + ")";
+    switch (h.kind)
+    {
+    case 'f': return "F" + std::to_string(h.k) + A;
+    case 'm': return "M" + std::to_string(h.obj) + "." + std::to_string(h.k) + A;
+    case 'x': return "X" + std::to_string(h.k) + "[" + std::to_string(h.obj) + "]" + A;
+    case 'l': return "L" + std::to_string(h.k) + A;
+    default: return "";
+    }
+}
+static void d_reset()
+{
+    for (int i = 0; i < DSLOTS; i++) { delete DSL[i]; DSL[i] = new dlg_t(); DSH[i] = dshadow(); }
+    for (int i = 0; i < 4; i++) DOBJ[i].id = i;
+}
+static void d_op(const std::vector<std::string> &w, out &o)
+{
+    const std::string &op = w[0];
+    auto N = [&](size_t k) { return atoi(w[k].c_str()); };
+    int a = N(1);
+    if (a < 0 || a >= DSLOTS) { o.result = "bad-op"; o.fail("slot"); return; }
+    auto show = [&](int s, const std::string &calls) { return std::string("a=") + (DSL[s]->armed() ? "1" : "0") + " c=" + (calls.empty() ? "-" : calls); };
+    auto armed_ok = [&](int s) {
+        if (DSL[s]->armed() != (DSH[s].kind != '0')) o.fail("armed() differs from what was stored");
+        if ((bool)*DSL[s] != (DSH[s].kind != '0')) o.fail("operator bool differs from what was stored");
+    };
+    if (op == "dnew")
+    {
+        delete DSL[a];
+        dshadow h;
+        h.kind = w[2][0];
+        if (h.kind == '0') DSL[a] = new dlg_t();
+        else if (h.kind == 'f')
+        {
+            h.k = N(3);
+            DSL[a] = new dlg_t(h.k == 1 ? dfn1 : h.k == 2 ? dfn2 : dfn3);
+            o.tag("dlg-function");
+        }
+        else if (h.kind == 'm')
+        {
+            h.obj = N(3); h.k = N(4);
+            DSL[a] = new dlg_t(h.k == 1 ? igris::make_delegate(&dobj::m1, &DOBJ[h.obj]) : h.k == 2 ? igris::make_delegate(&dobj::m2, &DOBJ[h.obj]) : igris::make_delegate(&dobj::m3, &DOBJ[h.obj]));
+            o.tag(h.k == 3 ? "dlg-virtual-method" : "dlg-method");
+        }
+        else if (h.kind == 'x')
+        {
+            h.k = N(3); h.obj = N(4);
+            DSL[a] = new dlg_t(h.k == 1 ? dx1 : h.k == 2 ? dx2 : dx3, h.obj ? (void *)&DOBJ[h.obj] : nullptr);
+            o.tag(h.obj ? "dlg-extfunction" : "dlg-extfunction-null-object");
+        }
+        else if (h.kind == 'l')
+        {
+            h.k = N(3);
+            DSL[a] = h.k == 1 ? new dlg_t(DF1) : new dlg_t(DF2);
+            o.tag("dlg-functor");
+        }
+        else { DSL[a] = new dlg_t(); o.result = "bad-op"; o.fail("kind"); return; }
+        DSH[a] = h;
+        armed_ok(a);
+        o.result = show(a, "");
+        return;
+    }
+    if (op == "dcopy" || op == "dmove")
+    {
+        int b = N(2);
+        if (op == "dcopy")
+        {
+            dlg_t tmp(*DSL[b]); // copy constructor
+            *DSL[a] = tmp;      // operator=
+            o.tag("dlg-copy");
+        }
+        else
+        {
+            dlg_t tmp(*DSL[b]);
+            *DSL[a] = std::move(tmp);
+            o.tag("dlg-move");
+        }
+        DSH[a] = DSH[b];
+        armed_ok(a);
+        o.result = show(a, "");
+        return;
+    }
+    if (op == "dclean") { DSL[a]->clean(); DSH[a] = dshadow(); armed_ok(a); o.result = show(a, ""); o.tag("dlg-clean"); return; }
+    if (op == "dinv" || op == "dreset")
+    {
+        int arg = N(2);
+        DCALLS.clear();
+        std::string want = dexpect(DSH[a], arg);
+        if (op == "dinv") { (*DSL[a])(arg); DSL[a]->invoke(arg); want += want; }
+        else { DSL[a]->invoke_and_reset(N(2)); DSH[a] = dshadow(); o.tag("dlg-invoke-and-reset"); }
+        if (DCALLS != want) o.fail("the delegate did not call exactly what was stored, once, with its argument: got '" + DCALLS + "' want '" + want + "'");
+        armed_ok(a);
+        o.tag(want.empty() ? "dlg-invoke-unarmed" : "dlg-invoke");
+        o.result = show(a, DCALLS);
+        return;
+    }
+    if (op == "deq")
+    {
+        int b = N(2);
+        bool e = *DSL[a] == *DSL[b];
+        bool want = DSH[a].kind == DSH[b].kind && DSH[a].k == DSH[b].k && DSH[a].obj == DSH[b].obj;
+        if (e != want) o.fail("operator== differs from 'same target'");
+        o.result = e ? "1" : "0";
+        o.tag(e ? "dlg-eq" : "dlg-ne");
+        return;
+    }
+    if (op == "dtim")
+    {
+        // the delegate as the callback of a timer: one call per due deadline, each with the timer's argument
+        int arg = N(2), n = N(3);
+        DCALLS.clear();
+        {
+            igris::timer_manager mgr;
+            igris::timer<int> tim(*DSL[a], (int)arg);
+            mgr.plan(tim, 0, 1);
+            mgr.exec(n);
+            if (n >= 1 && (!tim.is_planned() || tim.finish() != n + 1)) o.fail("timer with this delegate is not re-armed one interval after the last deadline");
+            tim.unplan();
+        }
+        std::string want;
+        for (int q = 0; q < n; q++) want += dexpect(DSH[a], arg);
+        if (DCALLS != want) o.fail("timer callbacks: the stored delegate was not called exactly once per due deadline with the timer's argument");
+        o.tag("dlg-in-timer");
+        o.result = show(a, DCALLS);
+        return;
+    }
+    o.result = "bad-op";
+    o.fail("unknown op");
+}
+
+
+// ---------------------------------------------------------------------------
+// round 3: the library used BEFORE main() (static-initialisation order): an object with init_priority(101) runs a
+// small scenario from its constructor - manager, two timers, exec, minimal_interval, stimer - into a POD buffer;
+// the op `premain` (after reset C) reports it, the model computes the same scenario
+// ---------------------------------------------------------------------------
+static char PM_BUF[512];
+static size_t PM_LEN = 0;
+static int PM_FIRES = 0;
+static igris::timer<int> *PM_T[2];
+static void pm_put(const char *s) { while (*s && PM_LEN < sizeof PM_BUF - 1) PM_BUF[PM_LEN++] = *s++; }
+static void pm_num(long v) { char t[32]; snprintf(t, sizeof t, "%ld", v); pm_put(t); }
+static void pm_fire(int id)
+{
+    if (PM_FIRES++) pm_put(",");
+    pm_num(id);
+    pm_put(":");
+    pm_num((long)PM_T[id]->finish());
+}
+struct premain_t
+{
+    premain_t()
+    {
+        igris::timer_manager *mgr = new igris::timer_manager;
+        PM_T[0] = new igris::timer<int>(igris::make_delegate(pm_fire), 0);
+        PM_T[1] = new igris::timer<int>(igris::make_delegate(pm_fire), 1);
+        pm_put("f=");
+        mgr->plan(*PM_T[0], 0, 3);
+        mgr->plan(*PM_T[1], 0, 5);
+        mgr->exec(7);
+        pm_put(" m=");
+        pm_num((long)mgr->minimal_interval(7));
+        pm_put(mgr->empty() ? " e=1" : " e=0");
+        PM_T[0]->unplan();
+        PM_T[1]->unplan();
+        pm_put(" n=");
+        pm_num((long)mgr->minimal_interval(7));
+        struct stimer_head h;
+        stimer_plan(&h, 5250, LONG_MAX);
+        pm_put(" s=");
+        pm_num(stimer_check(&h, 5000));
+        stimer_plan(&h, 0, 3);
+        pm_num(stimer_check(&h, 3));
+        pm_put(" l=");
+        pm_num(syslock_counter());
+        delete PM_T[0];
+        delete PM_T[1];
+        delete mgr;
+    }
+};
+static premain_t PREMAIN __attribute__((init_priority(101)));
+
+// ---------------------------------------------------------------------------
+// round 3: type widths and constants the model embeds, read out of the compiled code (reset C / consts)
+// ---------------------------------------------------------------------------
+template <class X> static std::string tyname() { return std::to_string(sizeof(X)) + (std::is_signed<X>::value ? "s" : "u"); }
+template <class Spec> static std::string mgr_types()
+{
+    using head = igris::timer_head_basic<Spec>;
+    using mgr = igris::timer_manager_basic<Spec>;
+    using T = decltype(std::declval<head &>().finish());
+    using D = decltype(std::declval<mgr &>().minimal_interval(std::declval<T>()));
+    return "time=" + tyname<T>() + ",diff=" + tyname<D>() + ",never=" + std::to_string((__int128)std::numeric_limits<D>::max() > (__int128)INT64_MAX ? (unsigned long long)std::numeric_limits<D>::max() : (unsigned long long)std::numeric_limits<D>::max());
+}
+static std::string consts_line()
+{
+    struct stimer_head h;
+    std::string s;
+    s += "long=" + tyname<long>();
+    s += " stimer.start=" + tyname<decltype(h.start)>() + " stimer.interval=" + tyname<decltype(h.interval)>() + " stimer.planed=" + tyname<decltype(h.planed)>();
+    s += " stimer_finish=" + tyname<decltype(stimer_finish(&h))>() + " stimer_check=" + tyname<decltype(stimer_check(&h, 0L))>();
+    s += " mgr[" + mgr_types<igris::timer_spec<int64_t>>() + "]";
+    s += " i32[" + mgr_types<spec_i32>() + "]";
+    s += " u32[" + mgr_types<spec_u32>() + "]";
+    s += " u32s[" + mgr_types<spec_u32s>() + "]";
+    s += " default=" + std::string(std::is_same<igris::timer_manager, igris::timer_manager_basic<igris::timer_spec<int64_t>>>::value ? "int64" : "other");
+    s += " delegate=" + std::to_string(sizeof(igris::delegate<void, int>));
+    return s;
+}
 
 static void run_op(const std::vector<std::string> &w, const std::string &, hv::out &o_)
 {
@@ -543,10 +824,14 @@ static void run_op(const std::vector<std::string> &w, const std::string &, hv::o
     if (op == "reset")
     {
         drop_world();
-        if (w[1] == "s" || w[1] == "S")
+        D_MODE = w[1] == "D";
+        if (D_MODE) { d_reset(); o.result = "ok"; return; }
+        if (w[1] == "C") { o.result = "ok"; return; }
+        if (w[1] == "s" || w[1] == "S" || w[1] == "T")
         {
             memset(&ST, 0, sizeof ST);
             ST_WIDE = w[1] == "S";
+            ST_LONG = w[1] == "T";
             ST_VSTART = ST_VIV = 0;
             o.result = "ok";
             return;
@@ -555,6 +840,23 @@ static void run_op(const std::vector<std::string> &w, const std::string &, hv::o
         {
             W_.t = new impl<spec_u32>(atoi(w[2].c_str()), -1);
             W_.oracle_on = w[1] == "u";
+        }
+        else if (w[1] == "i" || w[1] == "I")
+        {
+            // timer_spec<int32_t>: a signed 32-bit tick counter (wraps after 2^31 ticks)
+            W_.t = new impl<spec_i32>(atoi(w[2].c_str()), -1);
+            W_.oracle_on = w[1] == "i";
+        }
+        else if (w[1] == "v" || w[1] == "V")
+        {
+            W_.t = new impl<spec_u32s>(atoi(w[2].c_str()), -1);
+            W_.oracle_on = w[1] == "v";
+        }
+        else if (w[1] == "l")
+        {
+            // the shipped timer_spec<int64_t>; every tick value of the op lines is moved by <off> (modulo 2^64)
+            // before the code sees it, so that a history around 0 runs across the wrap of the 64-bit counter
+            W_.t = new impl<spec_i64>(atoi(w[2].c_str()), -1, (unsigned long)parse_wide(w[3]));
         }
         else if (w[1] == "z")
         {
@@ -567,6 +869,15 @@ static void run_op(const std::vector<std::string> &w, const std::string &, hv::o
         return;
     }
     W_.o = &o;
+    if (D_MODE) { d_op(w, o); return; }
+    if (op == "consts") { o.result = consts_line(); o.tag("consts"); return; }
+    if (op == "premain")
+    {
+        o.result = std::string(PM_BUF, PM_LEN);
+        if (o.result != "f=0:3,1:5,0:6 m=2 e=0 n=9223372036854775807 s=01 l=0") o.fail("the scenario run before main() did not behave like the same scenario after main()");
+        o.tag("before-main");
+        return;
+    }
     static const std::set<std::string> mgr_ops = {"plan", "plan1", "unplan", "sets", "seti", "replan", "destroy", "dropmgr", "qmin", "q", "exec"};
     if (mgr_ops.count(op) && !W_.t)
     {
@@ -662,8 +973,8 @@ static void run_op(const std::vector<std::string> &w, const std::string &, hv::o
         W_.cur = I(1);
         bool e = T.empty();
         i64 m = T.minimal_interval(W_.cur);
-        o.result = e ? "fault" : std::to_string(m);
-        if (e) o.fail("minimal_interval() on an empty manager returned " + std::to_string(m) + " (no next deadline exists)");
+        o.result = std::to_string(m);
+        if (e) { if (m != T.diff_max()) o.fail("minimal_interval() on an empty manager returned " + std::to_string(m) + " (no next deadline exists: numeric_limits<difftime_t>::max() expected)"); }
         else if (m != T.raw_diff(W_.ref.earliest() - W_.cur)) ofail("minimal_interval differs from the reference's time to the next deadline");
         o.tag(e ? "qmin-empty" : "qmin");
         return;
@@ -772,6 +1083,88 @@ static void run_op(const std::vector<std::string> &w, const std::string &, hv::o
         return;
     }
 #undef T
+    if (ST_LONG)
+    {
+        // stimer on `long` values exactly as given; the oracle evaluates the statement on 128-bit integers:
+        //   stimer_check <-> planed && (elapsed = (curtime - start) reduced modulo 2^64 into [-2^63, 2^63)) >= interval
+        //   and, whenever curtime - start itself lies in [-2^63, 2^63) (the admissible region of the transfer theorem):
+        //   stimer_check <-> planed && start + interval <= curtime   over the integers (no wrap)
+        typedef __int128 I128;
+        const I128 P63_ = (I128)1 << 63, P64_ = (I128)1 << 64;
+        auto red = [&](I128 v) { while (v >= P63_) v -= P64_; while (v < -P63_) v += P64_; return v; };
+        auto judge = [&](long now, const struct stimer_head &b, bool &inwin) {
+            I128 d = (I128)now - (I128)b.start;
+            inwin = d >= -P63_ && d < P63_;
+            return b.planed != 0 && red(d) >= (I128)b.interval;
+        };
+        auto tags = [&](long now, const struct stimer_head &b, bool inwin) {
+            o.tag("stimer-long");
+            if (!inwin) o.tag("stimer-outside-window");
+            else if (now < b.start) o.tag("stimer-start-ahead-of-clock");
+            if (b.interval >= LONG_MAX - 1 || b.interval == LONG_MIN) o.tag("stimer-huge-interval");
+            if (b.interval <= 0) o.tag("stimer-nonpositive-interval");
+            if ((I128)b.start + b.interval > LONG_MAX || (I128)b.start + b.interval < LONG_MIN) o.tag("stimer-deadline-beyond-wrap");
+        };
+        if (op == "sinit") { stimer_init(&ST, I(1), I(2)); if (ST.start != I(1) || ST.interval != I(2) || ST.planed != 0) o.fail("stimer_init: fields"); o.result = show_st(); o.tag("stimer-long"); return; }
+        if (op == "splan") { stimer_plan(&ST, I(1), I(2)); if (ST.start != I(1) || ST.interval != I(2) || ST.planed != 1) o.fail("stimer_plan: fields"); o.result = show_st(); o.tag("stimer-long"); return; }
+        if (op == "sstart") { struct stimer_head b = ST; stimer_start(&ST, I(1)); if (ST.start != I(1) || ST.interval != b.interval || ST.planed != 1) o.fail("stimer_start: fields"); o.result = show_st(); o.tag("stimer-long"); return; }
+        if (op == "sswift")
+        {
+            struct stimer_head b = ST;
+            stimer_swift(&ST);
+            if ((I128)ST.start != red((I128)b.start + b.interval) || ST.interval != b.interval || ST.planed != b.planed) o.fail("stimer_swift: start is not (start + interval) modulo 2^64");
+            o.result = show_st();
+            o.tag("stimer-long");
+            return;
+        }
+        if (op == "sfinish")
+        {
+            unsigned long f = stimer_finish(&ST);
+            I128 want = (I128)ST.start + ST.interval;
+            while (want < 0) want += P64_;
+            while (want >= P64_) want -= P64_;
+            if ((I128)f != want) o.fail("stimer_finish != (start + interval) modulo 2^64");
+            o.result = std::to_string(f);
+            o.tag("stimer-long");
+            return;
+        }
+        if (op == "scheck" || op == "speriodic")
+        {
+            long now = I(1);
+            struct stimer_head b = ST;
+            bool inwin = false;
+            bool due = judge(now, b, inwin);
+            bool due_int = b.planed != 0 && (I128)b.start + b.interval <= (I128)now;
+            tags(now, b, inwin);
+            bool got;
+            if (op == "scheck")
+            {
+                int c = stimer_check(&ST, now);
+                got = c != 0;
+                if (c != 0 && c != 1) o.fail("stimer_check returned neither 0 nor 1");
+                o.result = c ? "1" : "0";
+                if (ST.start != b.start || ST.interval != b.interval || ST.planed != b.planed) o.fail("stimer_check changed the timer");
+                o.tag(c ? "stimer-due" : (ST.planed ? "stimer-not-due" : "stimer-unplanned"));
+            }
+            else
+            {
+                bool fired = false;
+                STIMER_PERIODIC(&ST, now) { fired = true; }
+                got = fired;
+                if (fired && ((I128)ST.start != red((I128)b.start + b.interval) || ST.interval != b.interval || ST.planed != b.planed))
+                    o.fail("STIMER_PERIODIC re-arm is not previous start + interval (modulo 2^64)");
+                if (!fired && (ST.start != b.start || ST.interval != b.interval || ST.planed != b.planed)) o.fail("STIMER_PERIODIC changed a timer that is not due");
+                o.result = std::string(fired ? "1 " : "0 ") + show_st();
+                o.tag(fired ? "stimer-periodic-fired" : "stimer-periodic-idle");
+            }
+            if (got != due) o.fail("stimer: due differs from planed && elapsed (modulo 2^64, as signed) >= interval");
+            if (inwin && got != due_int) o.fail("stimer: due differs from planed && start + interval <= curtime although curtime is within half the range of start");
+            return;
+        }
+        o.result = "bad-op";
+        o.fail("unknown op");
+        return;
+    }
     if (ST_WIDE)
     {
         // stimer fed with tick values modulo 2^64; oracle: the rule on the unbounded values
@@ -873,6 +1266,10 @@ static std::string S(i64 v) { return std::to_string(v); }
 // the directed cases every run starts with
 static void gen_directed()
 {
+    // widths / signedness / constants of the compiled code against what the model embeds
+    emit("reset C");
+    emit("consts");
+    emit("premain");
     // the library's own scenario shape: two periodic timers, one stops itself
     emit("reset 2");
     emit("plan 0 0 1000");
@@ -1190,11 +1587,16 @@ static std::string gen_rules_wrap(hv::rng &r, int n, i64 now, const std::vector<
 
 // histories that respect the window precondition: starts <= the clock, every deadline >= the time of the
 // previous exec, (gap between execs) + (interval) < 2^31
+static void gen_wrap_case_m(hv::rng &r, const std::string &mode, const std::string &suffix, const std::vector<i64> &bases);
 static void gen_wrap_case(hv::rng &r)
 {
-    int n = (int)r.range(1, 5);
-    emit("reset u " + S(n));
     static const std::vector<i64> bases = {P32 - 40, P32 - 40, P32 - 1000, 3 * P32 - 25, P31 - 30, P32 - P30, 2 * P32 - P30 - 500, 0};
+    gen_wrap_case_m(r, "u", "", bases);
+}
+static void gen_wrap_case_m(hv::rng &r, const std::string &mode, const std::string &suffix, const std::vector<i64> &bases)
+{
+    int n = (int)r.range(1, 5);
+    emit("reset " + mode + " " + S(n) + suffix);
     // a case has either small intervals and small steps, or large intervals and steps of up to a quarter of
     // the range (a large step over a small interval would mean 10^9 callbacks)
     bool bigiv = r.chance(35);
@@ -1246,10 +1648,12 @@ static void gen_wrap_case(hv::rng &r)
 // starts in the future.  Intervals are never 0 modulo 2^32 and a timer whose start lies in the future gets a
 // large interval (an unsigned `check` sees a future start as "almost 2^32 ticks ago": it fires at once and
 // keeps firing until start has caught up).
-static void gen_wrap_outside_case(hv::rng &r)
+static void gen_wrap_outside_case_m(hv::rng &r, const std::string &mode);
+static void gen_wrap_outside_case(hv::rng &r) { gen_wrap_outside_case_m(r, "U"); }
+static void gen_wrap_outside_case_m(hv::rng &r, const std::string &mode)
 {
     int n = (int)r.range(1, 4);
-    emit("reset U " + S(n));
+    emit("reset " + mode + " " + S(n));
     bool small = r.chance(20);
     std::vector<i64> ivs = {P31 - 1, P31, P31 + 1, P32 - 1, P30, 3 * P30, P32 + P30 + 5, P32 - 2};
     if (small) ivs = {7, 100, P32 + 5, P32 - 1, P31};
@@ -1264,6 +1668,8 @@ static void gen_wrap_outside_case(hv::rng &r)
             i64 iv = r.pick(ivs);
             i64 st = now - (i64)r.below(5);
             if (r.chance(25)) { st = now + 1 + (i64)r.below(50); if (iv % P32 < P30) iv = P30 + (i64)r.below(1000); }
+            // a signed instance reads an interval >= 2^31 as negative: always due, exec would never return
+            if ((mode == "I" || mode == "V") && (iv % P32 >= P31 || iv % P32 == 0)) iv = P30 + iv % P30;
             emit("plan " + S(r.below(n)) + " " + S(st) + " " + S(iv));
         }
         else if (c < 52) emit("unplan " + S(r.below(n)));
@@ -1542,6 +1948,346 @@ static void gen_stimer_wide(hv::rng &r, int cases)
     }
 }
 
+
+// ---------------------------------------------------------------------------
+// round 3: stimer on raw `long` values (reset T) - every combination of
+//   interval {0, 1, 2, 250, LONG_MAX-1, LONG_MAX, LONG_MIN, -1} x start {0, 5250, near 2^63, near 2^64 (= -1 as long)}
+//   x curtime {start-250, start-2, start-1, start, start+1, deadline-1, deadline, deadline+1, half the range away, ...}
+// all computed modulo 2^64.  A start point AHEAD of the clock with a huge "never" interval is the shape the
+// seeded change C16-stimer-check-via-finish needs.
+// ---------------------------------------------------------------------------
+static long wadd(long a, long b) { return (long)((unsigned long)a + (unsigned long)b); }
+static void gen_stimer_long(hv::rng &r, bool th)
+{
+    static const std::vector<long> ivs = {0, 1, 2, 250, LONG_MAX - 1, LONG_MAX, LONG_MIN, -1, LONG_MIN + 1, 1000};
+    static const std::vector<long> starts = {0, 5250, LONG_MAX - 3, LONG_MAX, LONG_MIN, LONG_MIN + 5, -1, -3, -250};
+    static const std::vector<long> offs = {-250, -2, -1, 0, 1, 2, 250, LONG_MAX, LONG_MIN, LONG_MAX - 1, LONG_MIN + 1};
+    // the parked flag timer of the seeded change, first
+    emit("reset T");
+    emit("splan 5250 " + S(LONG_MAX));
+    emit("scheck 5000");
+    emit("scheck 5248");
+    emit("scheck 5249");
+    emit("scheck 5250");
+    emit("speriodic 5000");
+    emit("sfinish");
+    for (long iv : ivs)
+        for (long st : starts)
+        {
+            emit("reset T");
+            emit("splan " + S(st) + " " + S(iv));
+            emit("sfinish");
+            long dl = wadd(st, iv);
+            for (long o : offs) emit("scheck " + S(wadd(st, o)));
+            for (long o : {-1L, 0L, 1L}) emit("scheck " + S(wadd(dl, o)));
+            // one object, parameters changed between the calls
+            emit("speriodic " + S(wadd(st, -2)));
+            emit("speriodic " + S(wadd(dl, -1)));
+            emit("speriodic " + S(dl));
+            emit("speriodic " + S(dl));
+            emit("speriodic " + S(wadd(dl, iv)));
+            emit("sstart " + S(wadd(st, 7)));
+            emit("scheck " + S(wadd(st, 6)));
+            emit("scheck " + S(wadd(wadd(st, 7), iv)));
+            emit("sswift");
+            emit("sfinish");
+            emit("sinit " + S(st) + " " + S(iv));
+            emit("scheck " + S(dl));
+        }
+    int cases = th ? 4000 : 300;
+    for (int c = 0; c < cases; c++)
+    {
+        emit("reset T");
+        long st = wadd(r.pick(starts), r.range(-5, 5));
+        long iv = r.chance(50) ? r.pick(ivs) : (long)r.range(1, 40);
+        emit("splan " + S(st) + " " + S(iv));
+        int len = (int)r.range(3, 10);
+        long now = wadd(st, r.range(-260, 5));
+        for (int q = 0; q < len; q++)
+        {
+            unsigned m = (unsigned)r.below(100);
+            if (m < 10) { st = wadd(now, r.range(-3, 260)); iv = r.chance(50) ? r.pick(ivs) : (long)r.range(1, 40); emit("splan " + S(st) + " " + S(iv)); }
+            else if (m < 16) { st = wadd(now, r.range(-3, 3)); emit("sstart " + S(st)); }
+            else if (m < 22) { st = wadd(st, iv); emit("sswift"); }
+            else if (m < 28) emit("sfinish");
+            else
+            {
+                now = r.chance(40) ? wadd(wadd(st, iv), r.range(-1, 1)) : wadd(now, r.range(0, 300));
+                if (m < 60) emit("scheck " + S(now));
+                else emit("speriodic " + S(now));
+            }
+        }
+    }
+}
+
+// ---------------------------------------------------------------------------
+// round 3: timer_spec<int32_t> (signed 32-bit ticks: the counter wraps after 2^31 ticks) and the shipped
+// timer_spec<int64_t> run across the wrap of its 64-bit counter (reset l <n> <off>: every tick value of the op
+// lines is moved by <off> modulo 2^64 before the code sees it; the reference scheduler keeps the small values)
+// ---------------------------------------------------------------------------
+static void gen_signed_directed()
+{
+    // 10 ticks before the wrap of int32_t: deadlines before / after / exactly at 2^31, periodic through it
+    emit("reset i 3");
+    emit("plan 0 2147483638 5");    // deadline 2^31 - 5
+    emit("plan 1 2147483638 20");   // deadline 2^31 + 10
+    emit("plan 2 2147483638 10");   // deadline 2^31 exactly
+    emit("exec 2147483642 -");
+    emit("exec 2147483644 -");
+    emit("exec 2147483647 -");
+    emit("exec 2147483648 -");
+    emit("exec 2147483650 0@*:p1.2147483650.3");
+    emit("exec 2147483700 -");
+    emit("q 2147483700");
+    // the bit pattern passes 0 (2^32) and the sign bit again (3 * 2^31)
+    emit("reset i 2");
+    emit("plan 0 4294967286 4");
+    emit("plan 1 4294967286 25");
+    emit("exec 4294967295 -");
+    emit("exec 4294967296 -");
+    emit("exec 4294967330 1@0:u0");
+    emit("reset i 2");
+    emit("plan 0 6442450934 7");
+    emit("exec 6442450950 -");
+    emit("plan 1 6442450950 1000");
+    emit("exec 6442452000 -");
+    // int64_t: 10 ticks before 2^63 and 10 ticks before 2^64
+    emit("reset l 3 9223372036854775798");
+    emit("plan 0 0 5");
+    emit("plan 1 0 20");
+    emit("plan 2 0 10");
+    emit("exec 4 -");
+    emit("exec 6 -");
+    emit("exec 9 -");
+    emit("exec 10 -");
+    emit("exec 12 0@*:p1.12.3");
+    emit("exec 62 -");
+    emit("q 62");
+    emit("reset l 2 18446744073709551606");
+    emit("plan 0 0 4");
+    emit("plan 1 0 25");
+    emit("exec 9 -");
+    emit("exec 10 -");
+    emit("exec 44 1@0:u0");
+    // a start in the FUTURE on a signed instance is not due (the unsigned instance fires at once)
+    emit("reset I 1");
+    emit("plan 0 110 1073741824");
+    emit("exec 100 -");
+    emit("exec 1073741933 -");
+    emit("exec 1073741934 -");
+}
+static void gen_signed(hv::rng &r, bool th)
+{
+    gen_signed_directed();
+    static const std::vector<i64> b32 = {P31 - 10, P31 - 10, P31 - 40, P31 - 1000, P32 + P31 - 25, P32 - 10, 3 * P32 + P31 - 12, P31 - P30, 0};
+    static const std::vector<i64> b64 = {0, 0, 3, 1000};
+    static const std::vector<std::string> offs = {" 9223372036854775798", " 9223372036854775798", " 9223372036854775000", " 18446744073709551606",
+                                                  " 9223372036853775808", " 0", " 4611686018427387904"};
+    for (int c = 0; c < (th ? 8000 : 350); c++) gen_wrap_case_m(r, "i", "", b32);
+    for (int c = 0; c < (th ? 1000 : 60); c++) gen_wrap_outside_case_m(r, "I");
+    // timer_spec<uint32_t, int32_t>
+    emit("reset v 2");
+    emit("plan 0 4294967286 4");
+    emit("plan 1 4294967286 25");
+    emit("exec 4294967295 -");
+    emit("exec 4294967296 -");
+    emit("exec 4294967330 1@0:u0");
+    emit("reset V 1");
+    emit("plan 0 110 1073741824"); // start in the future: the signed difference says "not due"
+    emit("exec 100 -");
+    emit("exec 1073741934 -");
+    {
+        static const std::vector<i64> bu = {P32 - 10, P32 - 40, P31 - 10, 3 * P32 - 25, 0};
+        for (int c = 0; c < (th ? 4000 : 150); c++) gen_wrap_case_m(r, "v", "", bu);
+        for (int c = 0; c < (th ? 600 : 40); c++) gen_wrap_outside_case_m(r, "V");
+    }
+    for (int c = 0; c < (th ? 6000 : 300); c++) gen_wrap_case_m(r, "l", r.pick(offs), b64);
+}
+
+// ---------------------------------------------------------------------------
+// round 3: exec() called from callbacks without any precaution (any callback, any time: earlier, the same, later;
+// the calling timer still planned and due) mixed with plan / unplan of itself and of others - a re-entrant exec
+// returns at once (fix-C16), so the history behaves as if those calls were not there
+// ---------------------------------------------------------------------------
+static void gen_nested_directed()
+{
+    emit("reset 2");
+    emit("plan 0 0 5");
+    emit("plan 1 0 6");
+    emit("exec 5 0@0:x5");          // the former finding probe: own timer still at the head
+    emit("exec 6 *@*:x100");        // every callback calls exec with a far later time
+    emit("exec 30 0@*:x30,p1.30.2,x31;1@*:u0,x29");
+    emit("exec 40 -");
+    emit("qmin 40");
+    emit("reset 1");
+    emit("qmin 5");                 // the former finding probe: empty manager
+    emit("plan 0 1 1");
+    emit("qmin 1");
+    emit("unplan 0");
+    emit("qmin 0");
+}
+static void gen_nested_case(hv::rng &r)
+{
+    int n = (int)r.range(1, 4);
+    emit("reset " + S(n));
+    std::vector<i64> ivs = {1, 2, 3, 5, 7};
+    i64 now = r.chance(50) ? 0 : 500;
+    int len = (int)r.range(4, 16);
+    for (int q = 0; q < len; q++)
+    {
+        unsigned c = (unsigned)r.below(100);
+        int i = (int)r.below(n);
+        if (c < 30 || q < 2) emit("plan " + S(i) + " " + S(now - (i64)r.below(3)) + " " + S(r.pick(ivs)));
+        else if (c < 38) emit("unplan " + S(i));
+        else if (c < 44) emit("qmin " + S(now));
+        else
+        {
+            now += r.pick(std::vector<i64>{0, 1, 2, 5, 12, 40});
+            std::string rules;
+            int nr = (int)r.range(1, 3);
+            for (int k = 0; k < nr; k++)
+            {
+                std::string sel = (r.chance(40) ? std::string("*") : S(r.below(n))) + "@" + (r.chance(60) ? std::string("*") : S(r.below(3)));
+                std::string acts;
+                int na = (int)r.range(1, 3);
+                for (int a = 0; a < na; a++)
+                {
+                    if (!acts.empty()) acts += ",";
+                    unsigned m = (unsigned)r.below(100);
+                    int j = (int)r.below(n);
+                    if (m < 50) acts += "x" + S(now + r.pick(std::vector<i64>{-3, 0, 0, 1, 7, 1000}));
+                    else if (m < 70) acts += "u" + S(j);
+                    else acts += "p" + S(j) + "." + S(now - (i64)r.below(2)) + "." + S(r.pick(ivs) + 1); // deadline after now
+                }
+                if (!rules.empty()) rules += ";";
+                rules += sel + ":" + acts;
+            }
+            emit("exec " + S(now) + " " + rules);
+        }
+    }
+}
+
+// ---------------------------------------------------------------------------
+// round 3: 3 timers, EVERY sequence of four callback actions (the k-th callback of the exec, k = 0..3, whichever
+// timer it belongs to, performs one of: nothing | unplan j | plan j with a deadline after now | plan j with a
+// deadline at / before now (j runs again in this exec), j in {0,1,2}: 10^4 sequences) over two configurations
+// (three EQUAL deadlines; staggered deadlines), followed by an exec with the time going BACKWARDS, an exec at the
+// same time, and an exec that jumps many periods ahead.  thorough: all 20000; quick: a random tenth.
+// ---------------------------------------------------------------------------
+static void gen_exhaustive3(hv::rng &r, bool th)
+{
+    const i64 now = 6;
+    auto actstr = [&](int a, int k) -> std::string {
+        if (a == 0) return "";
+        int j = (a - 1) / 3, kind = (a - 1) % 3;
+        std::string sel = "*@" + S(k) + ":";
+        if (kind == 0) return sel + "u" + S(j);
+        if (kind == 1) return sel + "p" + S(j) + "." + S(now - 1) + "." + S(2 + j); // deadline now+1+j
+        return sel + "p" + S(j) + "." + S(now - 3 - k) + ".3";                         // deadline now-k: at or before now
+    };
+    for (int cfg = 0; cfg < 2; cfg++)
+        for (int code = 0; code < 10000; code++)
+        {
+            if (!th && !r.chance(4)) continue;
+            int a[4] = {code % 10, code / 10 % 10, code / 100 % 10, code / 1000};
+            emit("reset 3");
+            if (cfg == 0) { emit("plan 0 0 4"); emit("plan 1 1 3"); emit("plan 2 2 2"); }   // three deadlines 4 (FIFO 0,1,2)
+            else { emit("plan 2 0 3"); emit("plan 0 1 4"); emit("plan 1 0 6"); }            // deadlines 3, 5, 6
+            std::string rules;
+            for (int k = 0; k < 4; k++)
+            {
+                std::string x = actstr(a[k], k);
+                if (x.empty()) continue;
+                if (!rules.empty()) rules += ";";
+                rules += x;
+            }
+            if (rules.empty()) rules = "-";
+            emit("exec " + S(now) + " " + rules);
+            emit("exec " + S(now - 2) + " " + rules); // time goes backwards: nothing may run
+            emit("exec " + S(now) + " -");
+            emit("exec " + S(now + 100) + " -");      // many periods missed: one firing per period, no drift
+        }
+}
+
+static void gen_delegate(hv::rng &r, bool th)
+{
+    // every kind once, invoked, copied, compared, reset, inside a timer
+    emit("reset D");
+    emit("dinv 0 5");
+    emit("dnew 0 f 1"); emit("dinv 0 7");
+    emit("dnew 1 m 2 1"); emit("dinv 1 -3");
+    emit("dnew 2 m 3 3"); emit("dinv 2 9");
+    emit("dnew 3 x 2 1"); emit("dinv 3 11");
+    emit("deq 0 1"); emit("dcopy 0 1"); emit("deq 0 1"); emit("dinv 0 4");
+    emit("dnew 1 x 1 0"); emit("dinv 1 2");
+    emit("dnew 2 l 1"); emit("dinv 2 13"); emit("dtim 2 6 3");
+    emit("dreset 2 8"); emit("dinv 2 8"); emit("dreset 2 8");
+    emit("dtim 0 21 4"); emit("dtim 3 22 2"); emit("dtim 2 23 2");
+    emit("dmove 3 1"); emit("dinv 3 1"); emit("dclean 3"); emit("dinv 3 1");
+    for (int c = 0; c < (th ? 3000 : 250); c++)
+    {
+        emit("reset D");
+        int len = (int)r.range(4, 18);
+        for (int q = 0; q < len; q++)
+        {
+            unsigned m = (unsigned)r.below(100);
+            if (q < 3) m = (unsigned)r.below(30); // the first operations arm slots
+            int a = q < 3 ? q : (int)r.below(4), b = (int)r.below(4);
+            int arg = (int)r.pick(std::vector<i64>{0, 1, -1, 7, 2147483647, -2147483647 - 1, 1000});
+            if (m < 30)
+            {
+                unsigned k = (unsigned)r.below(100);
+                if (k < 10) emit("dnew " + S(a) + " 0");
+                else if (k < 35) emit("dnew " + S(a) + " f " + S(r.range(1, 3)));
+                else if (k < 65) emit("dnew " + S(a) + " m " + S(r.range(1, 3)) + " " + S(r.range(1, 3)));
+                else if (k < 88) emit("dnew " + S(a) + " x " + S(r.range(1, 3)) + " " + S(r.range(0, 3)));
+                else emit("dnew " + S(a) + " l " + S(r.range(1, 2)));
+            }
+            else if (m < 42) emit(std::string(r.chance(60) ? "dcopy " : "dmove ") + S(a) + " " + S(b));
+            else if (m < 46) emit("dclean " + S(a));
+            else if (m < 72) emit("dinv " + S(a) + " " + S(arg));
+            else if (m < 80) emit("dreset " + S(a) + " " + S(arg));
+            else if (m < 90) emit("deq " + S(a) + " " + S(b));
+            else emit("dtim " + S(a) + " " + S(arg) + " " + S(r.range(0, 5)));
+        }
+    }
+}
+
+// ---------------------------------------------------------------------------
+// round 3: long inputs - one exec that catches up 28500 periods (a result line of 450 KB; exec is linear in the
+// number of firings), and long histories on ONE manager object (thousands of operations, parameters changing)
+// ---------------------------------------------------------------------------
+static void gen_long(hv::rng &r, bool th)
+{
+    emit("reset 2");
+    emit("plan 0 1000000000000 1");
+    emit("plan 1 1000000000000 2");
+    emit("exec 1000000019000 -");
+    emit("exec 1000000019001 1@*:x5");
+    emit("q 1000000019001");
+    for (int c = 0; c < (th ? 12 : 2); c++)
+    {
+        int n = 6;
+        emit("reset " + S(n));
+        i64 now = 0;
+        std::vector<i64> ivs = {1, 2, 3, 5, 7, 10, 100, 255, 256, 257, 65535, 65536};
+        int len = th ? 4000 : 1500;
+        for (int q = 0; q < len; q++)
+        {
+            unsigned m = (unsigned)r.below(100);
+            int i = (int)r.below(n);
+            if (m < 35) emit("plan " + S(i) + " " + S(now - (i64)r.below(4)) + " " + S(r.pick(ivs)));
+            else if (m < 45) emit("unplan " + S(i));
+            else if (m < 50) emit("qmin " + S(now));
+            else
+            {
+                now += r.pick(std::vector<i64>{0, 1, 1, 2, 3, 7, 50, 255, 256, 257, 1000});
+                emit("exec " + S(now) + " " + gen_rules(r, n, now, std::vector<i64>{1, 2, 3, 5, 7, 10, 100, 256}));
+            }
+        }
+    }
+}
+
 static void gen_extensions(hv::rng &r, bool th)
 {
     gen_wrap_directed();
@@ -1553,6 +2299,13 @@ static void gen_extensions(hv::rng &r, bool th)
     for (int c = 0; c < (th ? 12000 : 1500); c++) gen_ext_case(r);
     for (int c = 0; c < (th ? 1500 : 200); c++) gen_unarmed_case(r);
     gen_stimer_wide(r, th ? 3000 : 400);
+    gen_stimer_long(r, th);
+    gen_signed(r, th);
+    gen_delegate(r, th);
+    gen_long(r, th);
+    gen_nested_directed();
+    gen_exhaustive3(r, th);
+    for (int c = 0; c < (th ? 6000 : 400); c++) gen_nested_case(r);
 }
 
 static void gen(hv::rng &r, const std::string &tier)
